@@ -22,7 +22,8 @@ def configs(tier):
     out = [{'name': 'retarders', 'kind': 'retarders'}, {'name': 'polarizer', 'kind': 'polarizer'},
            {'name': 'rotation-conjugation', 'kind': 'rotconj'}, {'name': 'mueller-multiplicative', 'kind': 'mueller_mult'},
            {'name': 'mueller-unitary', 'kind': 'mueller_unitary'}, {'name': 'pauli', 'kind': 'pauli'},
-           {'name': 'pol-vectors', 'kind': 'vectors'}]
+           {'name': 'pol-vectors', 'kind': 'vectors'},
+           {'name': 'rotation-definition-any-quadrant', 'kind': 'rotdef'}]
     for ch in range(-2, 4):
         for shp in ([(2,), (2, 2)] if q else [(2,), (2, 2), (3,), (2, 3)]):
             out.append({'name': 'vortex-charge%d-%s' % (ch, 'x'.join(map(str, shp))), 'kind': 'vortex', 'charge': ch, 'shape': list(shp)})
@@ -56,6 +57,8 @@ def params(cfg):
         return [('delta', {}), ('theta', {}), ('delta2', {}), ('theta2', {})]
     if k == 'vectors':
         return [('phi', {})]
+    if k == 'rotdef':
+        return [('w', {'lo': -6, 'hi': 6}), ('delta', {})]
     if k == 'adapter':
         return [('dx', {'pos': True}), ('wvl', {'pos': True}), ('efl', {'pos': True}), ('odx', {'pos': True}), ('z', {})]
     return []
@@ -101,6 +104,23 @@ def run(cfg, H):
         Dm = pol.linear_diattenuator(al, theta=th)
         H.eq('diattenuator(1) == I', pol.linear_diattenuator(1 + 0 * al, theta=th), eye2(H))
         H.eq('diattenuator squared == diattenuator(alpha^2)', Dm @ Dm, pol.linear_diattenuator(al * al, theta=th))
+    elif k == 'rotdef':
+        # an orientation anywhere on the circle (rational parametrisation by w = tan(theta/2)), against references that do not use the library's
+        # own rotation matrix
+        w, d = H.param('w'), H.param('delta')
+        th = H.angle('w', full=True)
+        c, s_ = (1 - w * w) / (1 + w * w), 2 * w / (1 + w * w)
+        R = pol.jones_rotation_matrix(th)
+        H.eq('R(theta) == [[cos, sin], [-sin, cos]]', R, H.asarray([[c, s_], [-s_, c]]))
+        H.eq('linear_polarizer(theta) == [[c^2, cs], [cs, s^2]]', pol.linear_polarizer(theta=th), H.asarray([[c * c, c * s_], [c * s_, s_ * s_]]))
+        e = H.E(d / H.pi)          # exp(i delta)
+        em = H.E(-d / H.pi)
+        ret = pol.linear_retarder(d, theta=th)
+        # a retarder with fast axis at theta: R(-theta) diag(e^{-i d/2}, e^{+i d/2}) R(theta) up to the library's phase convention: compare the
+        # convention-free quantity  J00 J11 - J01 J10 (unit modulus) and the off-diagonal symmetry
+        H.eq('retarder(theta) is symmetric', ret[0, 1], ret[1, 0])
+        H.eq('|det retarder(theta)|^2 == 1', H.abs2(ret[0, 0] * ret[1, 1] - ret[0, 1] * ret[1, 0]), 1)
+        H.eq('retarder(theta): (J00 - J11) sin(2 theta) == 2 J01 cos(2 theta)', (ret[0, 0] - ret[1, 1]) * (2 * s_ * c), 2 * ret[0, 1] * (c * c - s_ * s_))
     elif k == 'rotconj':
         d, th, al = H.param('delta'), H.param('theta'), H.param('alpha')
         R = pol.jones_rotation_matrix(th)
